@@ -293,20 +293,43 @@ def run(ctx):
         for p in ident_params:
             r2.ok(f"{f.fq}:param {p}", "identity-hashed key (SurveyElement.__hash__ = id): accepted — the cache keeps the key alive so an id is never reused, "
                   "and the result depends only on the tree reachable from the key, which is not restructured after construction (C02.R3)", f.loc())
-        # shared mutable results
+        # shared mutable results: the cached object, and everything reached from it (an element drawn from it by a loop
+        # or a subscript, a container built from such elements and returned to another function), is never written
         returns_mutable = any(isinstance(x, ast.Return) and x.value is not None and _maybe_mutable(x.value, f) for x in walk_own(f.node))
         if returns_mutable:
+            carriers = {}          # functions whose result holds (parts of) the cached object
+            for _round in range(3):
+                grew = False
+                for cf in funcs:
+                    if cf is f or cf.name in carriers:
+                        continue
+                    sh, ho = _tainted_names(cf, {f.name}, set(carriers))
+                    if not (sh or ho):
+                        continue
+                    if any(isinstance(x, ast.Return) and x.value is not None and (sh | ho) & {n.id for n in ast.walk(x.value) if isinstance(n, ast.Name)} for x in walk_own(cf.node)):
+                        carriers[cf.name] = cf
+                        grew = True
+                if not grew:
+                    break
             for cf in funcs:
-                for c in walk_own(cf.node):
-                    if isinstance(c, ast.Call) and call_name(c) == f.name and cf is not f:
-                        p = parent(c)
-                        bound = set()
-                        if isinstance(p, ast.Assign):
-                            for t in p.targets:
-                                bound |= {n.id for n in ast.walk(t) if isinstance(n, ast.Name)}
-                        bad = [node for wkind, tgt, node in writes_in(cf.node) if wkind != "augname" and root_name(tgt) in bound]
-                        r2.check(not bad, f"{cf.fq}:uses {f.name}()", "the shared (cached) result is not mutated by this caller", cf.loc(c),
-                                 why_fail=f"{[norm(b)[:40] for b in bad]}")
+                if cf is f:
+                    continue
+                sh, ho = _tainted_names(cf, {f.name}, set(carriers) - {cf.name})
+                if not (sh or ho):
+                    continue
+                bad = []
+                for wkind, tgt, node in writes_in(cf.node):
+                    if wkind == "augname":
+                        continue
+                    rn = root_name(tgt)
+                    if rn in sh:
+                        bad.append(node)
+                    elif rn in ho and isinstance(tgt, ast.Attribute | ast.Subscript) and isinstance(tgt.value, ast.Subscript | ast.Attribute):
+                        bad.append(node)   # holder[i].attr = ... / holder[i][k] = ... : through an element
+                via = sorted(c_ for c_ in carriers if any(isinstance(x, ast.Call) and call_name(x) == c_ for x in walk_own(cf.node)))
+                r2.check(not bad, f"{cf.fq}:uses {f.name}()" + (f" via {', '.join(via)}" if via else ""),
+                         "the shared (cached) result, and the objects drawn from it, are not mutated by this caller", cf.loc(),
+                         why_fail=f"{[norm(b)[:50] for b in bad]}: the write lands in the memoised object and changes what the next caller with the same arguments is given")
     # object identity as data: id(x) is only unique among LIVE objects (CPython hands a collected survey's address to the
     # next one), so an id that outlives the function that took it - a key in a closure / module / object table - answers
     # a later conversion from an earlier one's entries.  Accepted: __hash__/__repr__/__str__ (the id never leaves the
@@ -468,6 +491,9 @@ def run(ctx):
             check_temp_pairing(r5, fi, c, f)
     from .c18 import validated_file_obligations
     validated_file_obligations(ctx, r5, "C14.R5")
+    from .c18 import scratch_name_obligations
+    n_scratch = scratch_name_obligations(ctx, r5)
+    ctx.count("scratch_file_moves_examined", n_scratch)
     rules.append(r5)
 
     # ------------------------------------------------------------------ R6
@@ -575,6 +601,73 @@ def fresh_rows_obligations(ctx, r7, rid):
         aliased = [j for j, o_ in enumerate(out_rows) if any(o_ is r_ for r_ in rows)] if isinstance(out_rows, list) else None
         r7.check(isinstance(out_rows, list) and not aliased and rows == before, f"dealias_and_group_headers[{desc}]", "every returned row is a new dict and the caller's rows are as they were", dg.loc(),
                  why_fail=(f"returned row(s) {aliased} ARE the caller's row objects: the row loop's pops then consume the caller's input" if aliased else repr(out_rows)[:160]))
+
+
+def _tainted_names(fi, cached: set, carriers: set):
+    """-> (shared, holders).  `shared`: local names that may BE (a part of) a memoised result - bound to a call of a
+    function in `cached` (or unpacked from it), drawn from a shared name or from a holder by a loop / comprehension /
+    subscript / attribute / unpacking, or assigned from a shared name.  `holders`: fresh local containers (and results of
+    `carriers`, functions that return such containers) that HOLD shared objects: growing or re-slotting the holder is
+    harmless, writing through one of its elements is not."""
+    shared, holders = set(), set()
+
+    def kind_of(expr):
+        """'shared' | 'holder' | None for the value of expr."""
+        if isinstance(expr, ast.Call):
+            cn = call_name(expr)
+            if cn in cached:
+                return "shared"
+            if cn in carriers:
+                return "holder"
+            if cn in ("list", "tuple", "sorted", "reversed", "zip", "enumerate", "iter", "chain") and any(kind_of(a) for a in expr.args):
+                return "holder"
+            return None
+        if isinstance(expr, ast.Name):
+            return "shared" if expr.id in shared else ("holder" if expr.id in holders else None)
+        if isinstance(expr, ast.Subscript | ast.Attribute):
+            k = kind_of(expr.value)
+            return "shared" if k else None
+        if isinstance(expr, ast.Starred):
+            return kind_of(expr.value)
+        if isinstance(expr, ast.List | ast.Tuple | ast.Set):
+            return "holder" if any(kind_of(e) for e in expr.elts) else None
+        if isinstance(expr, ast.Dict):
+            return "holder" if any(kind_of(v) for v in expr.values if v is not None) else None
+        if isinstance(expr, ast.ListComp | ast.SetComp | ast.GeneratorExp):
+            return "holder" if (kind_of(expr.elt) or any(kind_of(g.iter) for g in expr.generators)) else None
+        if isinstance(expr, ast.IfExp):
+            return kind_of(expr.body) or kind_of(expr.orelse)
+        if isinstance(expr, ast.BoolOp):
+            return next((k for k in map(kind_of, expr.values) if k), None)
+        return None
+
+    def bind(target, k, unpacking=False):
+        if k is None:
+            return
+        if isinstance(target, ast.Name):
+            (shared if (k == "shared" or unpacking) else holders).add(target.id)
+        elif isinstance(target, ast.Tuple | ast.List):
+            for e in target.elts:
+                bind(e.value if isinstance(e, ast.Starred) else e, "shared", True)   # a part of a shared object / an element of a holder
+
+    for _ in range(6):
+        before = (len(shared), len(holders))
+        for x in walk_own(fi.node):
+            if isinstance(x, ast.Assign | ast.AnnAssign) and x.value is not None:
+                k = kind_of(x.value)
+                for t in (x.targets if isinstance(x, ast.Assign) else [x.target]):
+                    bind(t, k)
+            elif isinstance(x, ast.For | ast.comprehension):
+                if kind_of(x.iter):
+                    bind(x.target, "shared", True)
+            elif isinstance(x, ast.NamedExpr):
+                bind(x.target, kind_of(x.value))
+            elif isinstance(x, ast.Call) and isinstance(x.func, ast.Attribute) and x.func.attr in ("append", "extend", "add", "insert") and isinstance(x.func.value, ast.Name) \
+                    and any(kind_of(a) for a in x.args) and x.func.value.id not in shared:
+                holders.add(x.func.value.id)
+        if (len(shared), len(holders)) == before:
+            break
+    return shared, holders - shared
 
 
 def _locally_created(fi, name) -> bool:
